@@ -41,6 +41,15 @@ def routine_jobs(rng, tier):
         jobs.append(("asm_amd64.s", name, ac.ctx_kernel(n)))
     jobs.append(("gcm_amd64.s", "sealAsm", ac.ctx_gcm(vs, False)))
     jobs.append(("gcm_amd64.s", "openAsm", ac.ctx_gcm(vs, True)))
+    jobs = [j + ("amd64",) for j in jobs]
+    # arm64: every TEXT symbol of the two arm64 files (the GCM control flow lives in Go there)
+    jobs.append(("asm_arm64.s", "expandKeyAsm", ac.ctx_expandkey(), "arm64"))
+    for name, n in (("cryptoBlockAsm", 1), ("cryptoBlockAsmX2", 2), ("cryptoBlockAsmX4", 4), ("cryptoBlockAsmX8", 8)):
+        jobs.append(("asm_arm64.s", name, ac.ctx_kernel(n), "arm64"))
+    jobs.append(("asm_arm64.s", "cryptoBlockAsmX16Internal", ac.ctx_arm64_x16(), "arm64"))
+    jobs.append(("gcm_arm64.s", "gHashBlocks", ac.ctx_ghash(range(1, 20) if tier == "quick" else range(1, 80)), "arm64"))
+    for n in (16, 32, 64, 128, 256):
+        jobs.append(("gcm_arm64.s", "xor%d" % n, ac.ctx_xor(n), "arm64"))
     return jobs
 
 
@@ -48,10 +57,11 @@ def analyse(chk, tier, prefixes):
     """runs every routine; returns list of (routine, ctx, message) whose message starts with one
     of `prefixes`, and raises Infra for anything the machine could not interpret"""
     found, total_ctx, paths = [], 0, 0
-    for fname, rt, ctxs in routine_jobs(chk.rng, tier):
-        res, st = ac.run_routine(chk, fname, rt, ctxs, workers=8 if len(ctxs) > 8 else 2)
+    for fname, rt, ctxs, arch in routine_jobs(chk.rng, tier):
+        res, st = ac.run_routine(chk, fname, rt, ctxs, workers=8 if len(ctxs) > 8 else 2, arch=arch)
         chk.states += st["distinct"]
         chk.transitions += st["generated"]
+        rt = rt if arch == "amd64" else "arm64:" + rt
         chk.models.append(dict(module="AsmMachine:" + rt, generated=st["generated"], distinct=st["distinct"],
                                wall_s=round(st["wall"], 1), instructions=st["instructions"], contexts=len(ctxs)))
         total_ctx += len(ctxs)
@@ -62,6 +72,10 @@ def analyse(chk, tier, prefixes):
                     raise core.Infra("abstract machine cannot interpret %s (%s): %s" % (rt, r["ctx"], e))
                 if any(e.startswith(p) for p in prefixes):
                     found.append((rt, r["ctx"], e))
+                if e.startswith("NOTE"):
+                    notes = chk.extra.setdefault("asm_notes", [])
+                    if len(notes) < 20 and (rt + ": " + e) not in notes:
+                        notes.append(rt + ": " + e)
             if rt == "openAsm" and r["nsb"] != 1:
                 found.append((rt, r["ctx"], "C09 openAsm took %d data-dependent branches (exactly one verdict branch expected)" % r["nsb"]))
         if len(chk.samples) < 4:
@@ -99,14 +113,17 @@ def run(tier):
     return chk.finish(
         "model_checking",
         "every amd64 assembly routine that has a Go declaration (needExpand, copyAsm, expandKeyAsm, the five block "
-        "kernels, gHashBlocks, sealAsm, openAsm) is extracted from `go tool asm -S` of the current tree and executed "
+        "kernels, gHashBlocks, sealAsm, openAsm) and every arm64 TEXT symbol (expandKeyAsm, five kernels, gHashBlocks, "
+        "xor16..256) is extracted from `go tool asm -S` of the current tree and executed "
         "by the TLA+ abstract machine for each length vector (text / aad / nonce / tag swept separately and mixed); "
         "all key, data, nonce, aad and scratch bytes are the single abstract value `sec`, so each explored path holds "
         "for ALL data values; a branch on sec flags or an access through a sec base is reported; openAsm must take "
         "exactly one data-dependent branch (the verdict), both outcomes explored",
         ["TLC; the opcode classification table in vlib/asmx.py (fail closed on anything unknown) and the value "
          "semantics in AsmMachine.tla; Go assembler's listing",
-         "arm64 routines are NOT covered by this check yet (no arm64 semantics table); amd64 only",
+         "arm64: all twelve TEXT symbols are executed by the same machine with an arm64 classification table "
+         "(post-increment and multi-register loads/stores expanded, hand-encoded WORDs decoded as TBL/TBX or "
+         "rejected); on arm64 the GCM control flow is Go code, which this check does not cover",
          "lengths bounded (text/aad <= 1100, nonce <= 300); timing of individual instructions is out of scope"])
 
 
